@@ -277,10 +277,11 @@ func replayNative(prog *Program, v *Violation, file string) string {
 	if fn == nil {
 		return "not-reproduced: harness function not found"
 	}
-	return runNative(prog.overlayFiles, fn.Pkg.Pkg.Path(), fn.Pkg.Pkg.Name(), v.Harness, v.Label, v.Kind, file)
+	rw, _ := prog.nativeRewrites()
+	return runNative(prog.overlayFiles, rw, fn.Pkg.Pkg.Path(), fn.Pkg.Pkg.Name(), v.Harness, v.Label, v.Kind, file)
 }
 
-func runNative(overlayFiles map[string]string, pkgPath, pkgName, harness, label, kind, file string) string {
+func runNative(overlayFiles map[string]string, rewrites map[string][]byte, pkgPath, pkgName, harness, label, kind, file string) string {
 	work, err := os.MkdirTemp(filepath.Join(verifDir, ".work"), "replay")
 	if err != nil {
 		os.MkdirAll(filepath.Join(verifDir, ".work"), 0o755)
@@ -295,6 +296,13 @@ func runNative(overlayFiles map[string]string, pkgPath, pkgName, harness, label,
 	repl := map[string]string{}
 	for virt, real := range overlayFiles {
 		repl[virt] = real
+	}
+	ri := 0
+	for orig, content := range rewrites {
+		rf := filepath.Join(work, fmt.Sprintf("rewrite%d.go", ri))
+		ri++
+		os.WriteFile(rf, content, 0o644)
+		repl[orig] = rf
 	}
 	// mask the package's own tests (several are stale in the pinned tree)
 	ents, _ := os.ReadDir(pkgDir)
